@@ -1306,12 +1306,11 @@ fn numbers_decode(data: &[u8], sep: u8) -> impl Iterator<Item = usize> + '_ {
 // Decode positive integer number
 fn number_decode(data: &[u8]) -> Option<usize> {
     let mut result = 0usize;
-    let mut mult = 1usize;
-    for b in data.iter().rev() {
+    for b in data.iter() {
         match b {
             b'0'..=b'9' => {
-                result += (b - b'0') as usize * mult;
-                mult *= 10;
+                // number that does not fit is not a valid parameter
+                result = result.checked_mul(10)?.checked_add((b - b'0') as usize)?;
             }
             _ => return None,
         }
